@@ -615,6 +615,14 @@ func (r *rewriter) rewriteSelect(sel *ast.SelectStmt) ast.Stmt {
 		Fun:  &ast.SelectorExpr{X: ast.NewIdent("vsel"), Sel: ast.NewIdent("Order")},
 		Args: []ast.Expr{&ast.BasicLit{Kind: token.INT, Value: strconv.Itoa(ncases)}, &ast.BasicLit{Kind: token.STRING, Value: strconv.Quote(site)}},
 	}}}
+	if r.preSelect {
+		// with a context at hand the visit counter is kept per identity (node), so that
+		// goroutines of different nodes running at the same time cannot perturb each other
+		orderCall.Rhs = []ast.Expr{&ast.CallExpr{
+			Fun:  &ast.SelectorExpr{X: ast.NewIdent("vsel"), Sel: ast.NewIdent("OrderCtx")},
+			Args: []ast.Expr{parseExpr(r.ctxExpr), &ast.BasicLit{Kind: token.INT, Value: strconv.Itoa(ncases)}, &ast.BasicLit{Kind: token.STRING, Value: strconv.Quote(site)}},
+		}}
+	}
 	kInit := &ast.AssignStmt{Lhs: []ast.Expr{k}, Tok: token.DEFINE, Rhs: []ast.Expr{&ast.BasicLit{Kind: token.INT, Value: "0"}}}
 	cond := &ast.BinaryExpr{X: k, Op: token.LSS, Y: &ast.CallExpr{Fun: ast.NewIdent("len"), Args: []ast.Expr{ord}}}
 	sw := &ast.SwitchStmt{Tag: &ast.IndexExpr{X: ord, Index: k}, Body: &ast.BlockStmt{List: swCases}}
